@@ -36,6 +36,11 @@ T_Cmp == /\ IsEv("cmp")
             /\ Rec[l].timestamp = r         \* rdata::dnssec::Timestamp
             /\ Rec[l].newserial = r         \* new::base::Serial
             /\ Rec[l].ref = r               \* harness reference ref_cmp(32, ..)
+            \* XFR middleware, RFC 1995 section 2: IXFR request of a client at
+            \* serial cur, zone at serial b, diffs available
+            /\ CASE r = "LT"    -> Rec[l].ixfr = "transfer"
+                 [] r = "UNDEF" -> Rec[l].ixfr \in {"single", "transfer"}
+                 [] OTHER       -> Rec[l].ixfr = "single"
          /\ UNCHANGED cur
 
 T_Add == /\ IsEv("add")
